@@ -103,6 +103,12 @@ class C06(Prop):
             ln = rng.randint(4, 14)
             yield {'kind': 'adapt', 'rates': [rng.choice(classes + [rng.randint(0, 20) / 20.0]) for _ in range(ln)],
                    'transd': rng.random() < 0.5, 'window': 20}
+        # long runs of windows without a single acceptance, and long runs of one small rate: in floating point the widths shrink
+        # towards (and, unguarded, reach) exactly zero -- ratio = old_ratio**2 window after window, or a factor 0.1 per window
+        for r0, k, tail in [(0.2, 11, []), (0.2, 14, [1.0, 1.0, 0.4]), (0.1, 20, []), (0.8, 16, [1.0]), (0.05, 12, [0.0, 1.0, 0.0])]:
+            yield {'kind': 'adapt', 'rates': [r0] + [0.0] * k + tail, 'transd': k % 2 == 0, 'window': 20}
+        for r0, k in ([(0.05, 340)] if tier == 'quick' else [(0.05, 340), (0.01, 400), (0.1, 360)]):
+            yield {'kind': 'adapt', 'rates': [r0] * k, 'transd': False, 'window': 20}
         for j in range(2 if tier == 'quick' else 8):
             yield {'kind': 'law', 'seed': 1000 + j, 'n': 4000 if tier == 'quick' else 40000,
                    'xi': {'gamma': rng.uniform(-PI / 6, PI / 6), 'delta': rng.uniform(-PI / 2, PI / 2), 'kappa': 1.0,
